@@ -324,6 +324,14 @@ func Render(h map[string]string) (map[string]string, []string) {
 		fr = "type decimal64;"
 	case "restated-in-derived":
 		fr = "type td64 { fraction-digits 3; } } typedef td64 { type decimal64 { fraction-digits 2; }"
+	case "sixty-four-min-max":
+		fr = "type decimal64 { fraction-digits 64; range \"min..max\"; }"
+	case "two-five-five-max":
+		fr = "type decimal64 { fraction-digits 255; range \"max\"; }"
+	case "forty":
+		fr = "type decimal64 { fraction-digits 40; }"
+	case "huge":
+		fr = "type decimal64 { fraction-digits 18446744073709551617; range \"min..0\"; }"
 	}
 	fmt.Fprintf(&m, "  leaf dc { %s }\n", fr)
 	target := map[string]string{
@@ -469,6 +477,27 @@ func ReadBack(ms *yang.Modules) {
 		if _, ok := root.Node.(*yang.Module); ok { // an entry of a module's tree (not a detached error entry)
 			e.InstantiatingModule()
 		}
+		var types func(t *yang.YangType, d int)
+		types = func(t *yang.YangType, d int) {
+			if t == nil || d > 8 {
+				return
+			}
+			_ = t.Range.String()
+			_ = t.Length.String()
+			t.Range.Validate()
+			t.Equal(t.Root)
+			if t.Enum != nil {
+				t.Enum.Names()
+				t.Enum.Values()
+			}
+			if t.Bit != nil {
+				t.Bit.Names()
+			}
+			for _, u := range t.Type {
+				types(u, d+1)
+			}
+		}
+		types(e.Type, 0)
 		e.DefaultValues()
 		e.SingleDefaultValue()
 		e.GetWhenXPath()
@@ -488,6 +517,15 @@ func ReadBack(ms *yang.Modules) {
 		for _, a := range e.Augmented {
 			_ = a.Name
 		}
+		// entries that hang off the returned trees without being children
+		for _, d := range e.Deviations {
+			if d != nil {
+				walk(d.Entry, depth+1)
+			}
+		}
+		for _, a := range e.Augments {
+			walk(a, depth+1)
+		}
 	}
 	for _, mm := range []map[string]*yang.Module{ms.Modules, ms.SubModules} {
 		for _, m := range mm {
@@ -495,6 +533,13 @@ func ReadBack(ms *yang.Modules) {
 			e.GetErrors()
 			e.Print(io.Discard)
 			walk(e, 0)
+			for _, g := range m.Grouping {
+				walk(yang.ToEntry(g), 0)
+			}
+			yang.FindNode(m, "/ab:x")
+			yang.FindNode(m, "/a:x")
+			yang.FindNode(m, "/zz:x/y")
+			yang.ChildNode(m, "x")
 			for _, i := range m.Identities() {
 				for _, v := range i.Values {
 					_ = v.Name
@@ -788,7 +833,7 @@ func check(r *core.Run) {
 		cfg, nB = "MCHazard_thorough.cfg", 60000
 		textCfgs = []string{"raw5", "tok5"}
 	}
-	r.Rule = "Every module set of the hazard space of Hazard.tla (a benign skeleton deviating in at most 2 (thorough: 3, sampled) of 33 dimensions: typedef / grouping / identity reference graphs with self, 2- and 3-cycles, dangling and foreign edges; include / belongs-to / import graphs; augment and deviation targets of every node kind, absent, unprefixed, relative and empty paths; payload and deviate variants; top-level statements that are not modules; substatements named like builder fields; leafref, choice, key, union, enum, range, rpc, extension, list, config, revision, identityref and fraction-digits oddities) is loaded in two orders, processed twice and read back (ToEntry, GetErrors, Print, Find with 10 paths from every entry, Namespace, ReadOnly, DefaultValues, FindNode, GetModule, namespace lookups) in an isolated executor with a 20 s limit; plus every text of the Text family's raw space loaded alone and wrapped in a module; plus seeded statement-tree mutations (delete, duplicate, graft, re-keyword, redirect) of good module sets. A panic, a fatal runtime error or a timeout is the violation; every other check's executions are monitored the same way (crash_monitored in their evidence). Non-trivial = at least one hazard / three characters."
+	r.Rule = "Every module set of the hazard space of Hazard.tla (a benign skeleton deviating in at most 2 (thorough: 3, sampled) of 33 dimensions: typedef / grouping / identity reference graphs with self, 2- and 3-cycles, dangling and foreign edges; include / belongs-to / import graphs; augment and deviation targets of every node kind, absent, unprefixed, relative and empty paths; payload and deviate variants; top-level statements that are not modules; substatements named like builder fields; leafref, choice, key, union, enum, range, rpc, extension, list, config, revision, identityref and fraction-digits oddities) is loaded in two orders, processed twice and read back (ToEntry, GetErrors, Print, Find with 10 paths from every entry, Namespace, ReadOnly, DefaultValues, FindNode, GetModule, namespace lookups) in an isolated executor with a 20 s limit; plus every text of the Text family's raw space loaded alone and wrapped in a module; plus seeded statement-tree mutations (delete, duplicate, graft, re-keyword, redirect) of good module sets; plus every history of Session.tla's quick spaces (loads of good and rejected texts, Process and queries in any order on one set). A panic, a fatal runtime error or a timeout is the violation; every other check's executions are monitored the same way (crash_monitored in their evidence). Non-trivial = at least one hazard / three characters."
 	r.Exhaustive = r.Tier != "thorough"
 	r.Assumptions = []string{"coverage is the model-generated space, not all byte strings; byte-level fuzzing is a different technique and is not used", "a stack of 64 MiB stands for 'unbounded recursion' (the default limit is 1 GiB)"}
 	keep := func(i int64, body string) bool { return true }
@@ -804,6 +849,13 @@ func check(r *core.Run) {
 		r.DirectionA("hazard", core.TLCOpts{Module: "MCText", Cfg: "MCText_" + tc + ".cfg", Workers: 16, HeapGB: 16, Timeout: 0}, nil)
 	}
 	core.SubmitCollect(r, "hazard", 'B', nB, nil)
+	// sequences of texts: the histories of Session.tla (loads of good and bad texts, Process, queries in any order),
+	// replayed for crashes and hangs only
+	core.CaseSuffix = `,"prop":"C01"}`
+	for _, sc := range []string{"MCSession_quick.cfg", "MCSession_quick2.cfg"} {
+		r.DirectionA("session", core.TLCOpts{Module: "MCSession", Cfg: sc, Workers: 12, HeapGB: 16, Timeout: 0}, nil)
+	}
+	core.CaseSuffix = ""
 }
 
 // Positions is the resolve-time part of C16: run over the hazard space.
